@@ -681,6 +681,7 @@ pub fn gen_world(rng: &mut Rng, arch: &str, with_cfi: bool) -> World {
         let base = if i > 0 && rng.chance(1, 6) { w.mods[i as usize - 1].0.wrapping_add(rng.below(0x800)) } else { base };
         let name = format!("m{i}");
         let mut recs = vec![];
+        let mut cycle_entry: Option<u64> = None;
         let have_syms = rng.chance(3, 4);
         if have_syms {
             let nf = rng.below(5);
@@ -712,7 +713,32 @@ pub fn gen_world(rng: &mut Rng, arch: &str, with_cfi: bool) -> World {
                 // CFI without a FUNC
                 recs.push(Rec::C { addr: at + 0x100, size: 0x100, rules: cfi_rules(rng, arch) });
             }
+            if with_cfi && size > 0 && rng.chance(1, 5) {
+                // hostile CFI that sends the walk in circles: k records whose constant return addresses
+                // point into one another and whose CFA does not move (or crawls by one byte) - the only
+                // thing that ends such a walk is the unwinder's own progress / in-stack test (C03's bound)
+                let k = 1 + rng.below(3);
+                let first = at + 0x200;
+                let sp = if matches!(arch, "x86" | "amd64" | "mips32" | "mips64") { format!("${}", sp_name(arch)) } else { sp_name(arch).to_string() };
+                for j in 0..k {
+                    let next = first + ((j + 1) % k) * 0x40 + 0x10 + rng.below(8);
+                    let cfa = match rng.below(4) {
+                        0 => sp.clone(),
+                        1 => format!("{sp} 0 +"),
+                        2 => format!("{sp} 1 +"),
+                        _ => format!("{sp} {} +", ptr_of(arch)),
+                    };
+                    recs.push(Rec::C { addr: first + j * 0x40, size: 0x40, rules: format!(".cfa: {cfa} .ra: {}", base.wrapping_add(next)) });
+                }
+                cycle_entry = Some(base.wrapping_add(first + 0x10 + rng.below(8)));
+            }
             w.syms.push((name.clone(), recs.clone()));
+        }
+        if let Some(e) = cycle_entry.take() {
+            // make the cycle reachable: several candidates for the context ip / stack words
+            for _ in 0..4 {
+                w.rets.push(e);
+            }
         }
         // plausible return addresses inside this module
         if size > 0 {
